@@ -1017,6 +1017,33 @@ pub fn pointer_chain_sweep() -> Vec<dns::Message> {
     v
 }
 
+/// Many records with deep owner names that share their suffix (reverse-zone shapes): the labels
+/// of all names of one message add up to far more than the message has octets (compression), up
+/// to 2000 records x 34 labels and 1200 x 61.
+pub fn many_labels_sweep() -> Vec<dns::Message> {
+    let mut v = vec![];
+    for (records, depth) in [(1200usize, 61usize), (2000, 34), (1000, 61), (1999, 33)] {
+        let base: dns::Name = (0..depth - 1).map(|k| vec![b'0' + (k % 10) as u8]).collect();
+        let mut m = dns::Message {
+            header: dns::Header { id: 0x6565, qr: true, rd: true, ra: true, ..Default::default() },
+            questions: vec![dns::Question { name: base.clone(), qtype: 12, qclass: 1 }],
+            ..Default::default()
+        };
+        for r in 0..records {
+            let mut name = vec![format!("h{}", r).into_bytes()];
+            name.extend(base.iter().cloned());
+            let rr = dns::Rr { name, rtype: dns::T_A, class: 1, ttl: 60, rdata: dns::RData::Raw(vec![10, 0, (r >> 8) as u8, r as u8]) };
+            match r % 3 {
+                0 => m.answer.push(rr),
+                1 => m.authority.push(rr),
+                _ => m.additional.push(rr),
+            }
+        }
+        v.push(m);
+    }
+    v
+}
+
 pub fn run_c14_func(ctx: &Ctx) {
     // the committed inputs first (every past failure of this property and of C05 on the DNS
     // decoder, minimised or as found by libFuzzer)
@@ -1049,8 +1076,8 @@ pub fn run_c14_func(ctx: &Ctx) {
     if !ctx.violations.lock().unwrap().is_empty() {
         return;
     }
-    // the longest pointer chains an encoder can write
-    run_list(ctx, &C14Structured, pointer_chain_sweep());
+    // the longest pointer chains an encoder can write, and the most labels a message can name
+    run_list(ctx, &C14Structured, pointer_chain_sweep().into_iter().chain(many_labels_sweep()));
     if !ctx.violations.lock().unwrap().is_empty() {
         return;
     }
